@@ -8,3 +8,5 @@ const verifOn = false
 func verifNoteTrackCap(int) {}
 
 func verifClockPoint(int) {}
+
+func verifTraceStep(*Runner) {}
